@@ -8,6 +8,7 @@ from vf import core
 from vf.core import Ob
 from vf.props import vecops_gen as g
 from vf.props import c05
+from vf.props import apigen as ag
 
 
 def obligations(ctx):
@@ -65,6 +66,10 @@ def obligations(ctx):
                 obs.append(Ob("big-normalize-inplace/k=%d/res=%d/a=%d" % (k, rsz, asz), c05.H, "h_vec",
                               {"K": k, "NN": 2, "RSZ": rsz, "ASZ": asz, "VIA": 1, "INPLACE": None}, c05.LIBS,
                               unwind=40, family="vec_znx_big_normalize_base2k res==a"))
+    # the inverse DFT writing over its own input (FFT64): output rows beyond the input size exactly zero whatever the buffer held before
+    for (rsz, asz) in ((3, 1), (2, 2), (1, 3), (2, 0)):
+        for (nn, avx) in ((4, 0), (8, 1)):
+            obs.append(ag.api_ob(ag.tables(ctx), 2, nn, 0, avx, rsz, asz, inplace=True, tag="idft-inplace/"))
     # pointwise products with r==a or r==b (reim, reim4 and interleaved-complex vectors, reference and FMA kernels): the aliased call yields the
     # same exact-semantics polynomial as the definition (shared analysis with C17)
     from vf.props import c17
